@@ -137,4 +137,39 @@ def stageVars (l : List (Nat × Vars)) (i : Nat) : Vars :=
   | some e => e.2
   | none => []
 
+/-! ## the variables of a copy: every copy knows its own replica index
+
+`compile_component_replica` (flowir.py) back-patches the component-level variables of copy `i` with
+
+    variables = component.get('variables', {});  variables['replica'] = replica
+
+i.e. the injected index **replaces** whatever the component defines for `replica` itself; every other
+variable of the component is kept.  Components that are not replicated (outside the region, aggregators)
+keep their variables as they are.  As a finite map (the first entry for a name is its value) the
+assignment is an `override` with the single entry `replica ↦ str(i)`. -/
+
+def replicaKey : S := "replica".toList
+
+/-- component-level `variables` of copy `i` of a component whose own variables are `own` -/
+def copyVars (own : Vars) (i : Nat) : Vars := override own [(replicaKey, natToDigits i)]
+
+/-- component-level variables of what component `c` (own variables `own`, propagated count `p`) expands
+to; aligned with `piece d c p` (same case analysis, same order) -/
+def pieceVars (c : Comp) (own : Vars) (p : Option Nat) : List Vars :=
+  if c.agg then [own]
+  else if 0 < p.getD 0 then (List.range (p.getD 0)).map (copyVars own)
+  else [own]
+
+/-- the pass of `go` / `goText`, emitting the component-level variables of every emitted component -/
+def goVars : Done → List Vars → List (Comp × Vars) → Option (List Vars)
+  | _, out, [] => some out
+  | d, out, (c, vs) :: cs =>
+    match decide1 (vals d c) with
+    | some p => goVars ((c, p) :: d) (out ++ pieceVars c vs p) cs
+    | none => none
+
+/-- a scope as a mapping: the names it defines (first occurrence order) with their values -/
+def normVars (v : Vars) : Vars :=
+  (v.map (·.1)).eraseDups.filterMap fun k => (lookup v k).map fun t => (k, t)
+
 end St4sd.Repl
